@@ -74,10 +74,8 @@ class StmtCompiler(CompilerBase, AstVisitor[None]):
     def _assign_place(self, lhs: PlaceNode, port: Wire) -> None:
         if subscript := contains_subscript(lhs.place):
             assert subscript.setitem_call is not None
-            if subscript.item not in self.dfg:
-                self.dfg[subscript.item] = self.expr_compiler.compile(
-                    subscript.item_expr, self.dfg
-                )
+            self.expr_compiler.dfg = self.dfg
+            self.expr_compiler.bind_subscript_items(subscript)
             # If the subscript is nested inside the place, e.g. `xs[i].y = ...`, we
             # first need to lookup `tmp = xs[i]`, assign `tmp.y = ...`, and then finally
             # set `xs[i] = tmp`
